@@ -4,10 +4,36 @@ CFG = {
     "extractors": [],
     "drivers": ["C16"],
     "trivial_prefix": ("L|L|L|L|L|L|L", "bad-op"),
-    "rule": "one case = one (scanner, text, width range); distinct by op line",
-    "trusted_base": [],
-    "level_text": "WIP",
-    "level_note": "WIP",
-    "assumptions": [],
+    "design_ref": "DESIGN.md §5 C16; notes/C16.md",
+    "technique": "Lean 4 proof over an executable model of both SoftwrapScanner.Scan loops, firstLineSegment, HardwrapScanner "
+                 "and the Draw row loops (Unicode segmentation/width as oracle parameters); differential correspondence "
+                 "model ≡ real scanners + Spec.Wrap oracle on the real output",
+    "rule": "one case = one (scanner, text, width range 0..6 or w..w+1) for text.SoftwrapScanner (P), richtext.SoftwrapScanner (R), "
+            "HardwrapScanner (H), Text.Draw/RichText.Draw (DP/DR). Texts: all strings over {a,b,space,-,\\n,世,e+U+0301,U+2060,tab} "
+            "up to length 5 (quick) / 6 (thorough) × widths 0..6, random strings of length 6-7 (quick) / 7-9 (thorough), random "
+            "word-structured texts up to 2000 graphemes over a 30-grapheme alphabet × widths 1..200, and one 65536-column word; "
+            "distinct by op line; non-trivial = at least one line emitted",
+    "trusted_base": [
+        "uniseg (grapheme/line segmentation, trailing-break test), vaxis.Characters widths and unicode.IsSpace are oracle parameters: "
+        "their values are computed by the real libraries in the harness and passed in each op line; theorems quantify over all such "
+        "functions satisfying OracleOK (non-empty first segment; must-break at end of text), which the harness asserts on every query",
+        "A-concat: the clustering of a word/line equals the global clustering restricted to it (screened per case; discarded cases are "
+        "counted as plain:aconcat-discard:*; a tab inside an unbreakable word is the main discarded shape)",
+    ],
+    "assumptions": [
+        "OracleOK for uniseg.FirstLineSegment (proved for the transcribed richtext.firstLineSegment, checked at run time for text)",
+        "Character.Width >= 0; Go int does not overflow on width sums",
+    ],
+    "level_text": "Proved for every text, every width and every oracle meeting OracleOK: scan_terminates / lines_terminate (each Scan "
+                  "returns and strictly shortens rest; width 0 returns false), conservation (non-whitespace graphemes with styles, in order), "
+                  "line_width (no hypothesis at all), hard_break_ends_line (line structure: only the last segment of a line may carry a hard "
+                  "break), no_needless_split (a segment is divided only if its word part is wider than the line); for richtext the oracle "
+                  "hypotheses are proved of the transcribed firstLineSegment, so its statements are unconditional. F44 and F45 were real "
+                  "violations of line_width and are fixed in /repo (one commit each).",
+    "level_note": "Validated by correspondence only (not proved): draw_one_line_per_row (Text.Draw / RichText.Draw surfaces compared cell by cell "
+                  "with the model row loops and checked by the oracle against the scanner's own lines), HardwrapScanner (oracle: split at \\n), "
+                  "the end-to-end Bool oracles hardBreakOK / noNeedlessSplit on real output. Modelled, not verified: tab inside an unbreakable word "
+                  "(long-word split rewrites the tab as 8 spaces), CRLF terminator (only the LF rune is stripped), Max.Height clipping of Draw "
+                  "(C14's F39/F42 region; harness keeps Max.Height above the line count except for a few random cases).",
     "timeout": 1500,
 }
